@@ -22,7 +22,7 @@
    first-character set (FcPrefix).  *)
 From Verif Require Import Base.Prelude Model.CharClass Base.Utf8 Model.Tree Model.Spec Model.Analysis Model.Analysis2
      Proofs.AnalysisReach Proofs.AnalysisProofs Proofs.AnalysisPrefix Proofs.AnalysisFacts
-     Proofs.Analysis2Cls Proofs.Analysis2Ffcc Proofs.Analysis2Fixed Proofs.Analysis2Lal Proofs.Analysis2Prefixes
+     Proofs.Analysis2Cls Proofs.Analysis2Ffcc Proofs.Analysis2Fixed Proofs.Analysis2Lal Proofs.Analysis2Prefixes Proofs.Analysis2Chain
      Proofs.Utf8Proofs.
 
 (* ---- MinRequiredLength / MaxPossibleLength --------------------------------------------------- *)
@@ -410,6 +410,31 @@ Proof.
 Qed.
 Print Assumptions C04_prefix_runes.
 
+(* findRequiredLandmarkChain (prefixanalyzer.go:1302) published (LeadingLoopSet = set id loop, Landmarks = lms):
+   every successful attempt at p of a left-to-right pattern reads a run of leading-loop-set characters
+   p .. s1-1; from s1 on the landmarks occur in order (chain_first / chain_from): for each landmark one of its
+   alternatives a occupies [s, t) = leading whitespace run [s, c) (non-empty iff RequireWhitespaceBefore; s = c
+   when the alternative has no leading set), core [c, en) (the Literal, or MinRepeat..MaxRepeat characters of
+   Set), trailing whitespace run [en, t) likewise (alt_at); the first landmark's s is exactly s1 (only
+   zero-width nodes may sit between the loop and the first landmark), every later s is >= the previous t.
+   This is stronger than what a sound run-time finder needs (runner.go:1744 after the repairs 573b074, 563c473,
+   5218d84: find the alternatives' cores in order, chaining from core start + minimal width, and rewind from the
+   first core over the union of its alternatives' leading whitespace sets and then the loop set). *)
+Theorem C04_landmark_chain_sound :
+  forall e (cat_in : Z -> Z -> bool) (sets : list cls) fuel root p s' loop lms,
+    tlen e < INF ->
+    shape_ok false root = true -> no_ci_lit root = true -> lits_ok root = true -> 0 <= p <= tlen e ->
+    find_landmark_chain cat_in sets root = Some (loop, lms) ->
+    attempt e fuel root p = Ok (Some s') ->
+    exists s1, p <= s1 <= tlen e /\
+      (forall i, p <= i < s1 -> set_in e loop (char_at e i) = true) /\
+      chain_first e lms s1 /\ (2 <= length lms)%nat.
+Proof.
+  intros e cat_in sets fuel root p s' loop lms Hshort.
+  exact (a2_landmark_chain_sound e cat_in sets Hshort fuel root p s' loop lms).
+Qed.
+Print Assumptions C04_landmark_chain_sound.
+
 (* ---- non-vacuity ---- *)
 Definition ex2_sets : list cls := [ranges_cls [(98, 99)]].                       (* [bc] *)
 Definition ex2_cat : Z -> Z -> bool := fun _ _ => false.
@@ -478,4 +503,16 @@ Example C04_witness_prefixes :
   find_prefixes ex2_cat (fun _ => true) ex2_sets true ex2_pref = None /\
   attempt (ex2_env [99; 100; 98]) 10 ex2_pref 0 = Ok (Some {| pos := 3; caps := [(0, [(0, 3)])] |}) /\
   attempt (ex2_env [97; 100; 98]) 10 ex2_pref 0 = Ok None.
+Proof. vm_compute. repeat split; reflexivity. Qed.
+
+(* [bc]+ a [bc]+ d [bc]+ : leading loop [bc]+, landmarks 'a' and 'd' (the set loops between them are skipped) *)
+Definition ex2_chain : node :=
+  NCapture 0 0 (-1) (NConcat 0 [NCharLoop CSet LGreedy 0 0 1 INF; NChar COne 0 97; NCharLoop CSet LGreedy 0 0 1 INF;
+                                NChar COne 0 100; NCharLoop CSet LGreedy 0 0 1 INF]).
+Example C04_witness_landmark_chain :
+  shape_ok false ex2_chain = true /\ no_ci_lit ex2_chain = true /\ lits_ok ex2_chain = true /\
+  option_map (fun c => (fst c, map (map la_lit) (snd c))) (find_landmark_chain ex2_cat ex2_sets ex2_chain)
+    = Some (0, [[[97]]; [[100]]]) /\
+  attempt (ex2_env [98; 97; 99; 100; 98]) 10 ex2_chain 0 = Ok (Some {| pos := 5; caps := [(0, [(0, 5)])] |}) /\
+  attempt (ex2_env [98; 100; 99; 97; 98]) 10 ex2_chain 0 = Ok None.
 Proof. vm_compute. repeat split; reflexivity. Qed.
